@@ -101,6 +101,14 @@ def gen_program(rng):
         if not any(l.startswith("l%d:" % i) for l in L):
             L.append("l%d:" % i)
     if rng.chance(0.3):
+        # preprocessor definitions whose meaning changes in the course of the file
+        pos = rng.randint(5, len(L))
+        L[pos:pos] = ["#define LVL %d" % rng.below(200), "\t%s LVL" % db, "#undef LVL", "#define LVL %d" % rng.below(200), "\t%s LVL" % db]
+    if rng.chance(0.4):
+        # values beyond 32 bits and negative ones among the shared symbols
+        L.append("wide1\tequ %d\nwide2\tequ -%d\nwide3\tequ %d" % ((1 << 32) + rng.below(1 << 36), 1 + rng.below(1000), (1 << 40) - 1 - rng.below(5)))
+        L.append("\tshared v1,l3,wide1,wide2,wide3")
+    elif rng.chance(0.3):
         L.append("\tshared v1,l3")
     return "\n".join(L) + "\n"
 
